@@ -211,3 +211,12 @@ func (sq *Queue) VerifTryQuotaPreemptionSync() {
 		}
 	}
 }
+
+// VerifSortedChildren returns the paths of the child queues that sortQueues offers to the scheduling cycle, in order.
+func (sq *Queue) VerifSortedChildren() []string {
+	out := []string{}
+	for _, child := range sq.sortQueues() {
+		out = append(out, child.GetQueuePath())
+	}
+	return out
+}
